@@ -67,6 +67,51 @@ def main():
                     x = None if nx.empty() else nx.first()
             assert seen == hi - lo + 1, (inst.key, seen)
     print("selftest cells: OK  (%d instances, %d cells, %d concrete values compared)" % (len(insts), ncell, nvals))
+    nested(ctx, rnd)
+
+
+def nested(ctx, rnd):
+    """Nested truncation (cells.exactify: residue-class splits) and modular narrowing inside checker
+    roots (wrap_roots), against brute force over all values of 8/16-bit parameters."""
+    funcs = []
+    fixed = [(9, 5, 20, -9193, 20), (7, 3, 4, 11, 6), (100, 9, 9, -2731, 100), (1, 4, 3, -5, 2), (5, 9, 9, 160, 5), (3, 7, 7, 0, 3)]
+    for T in ("int16_t", "int8_t", "uint8_t", "uint16_t"):
+        for (a, b, c, e, g) in fixed + [(rnd.randrange(1, 40), rnd.randrange(2, 40), rnd.randrange(1, 30), rnd.randrange(-500, 500), rnd.randrange(2, 40)) for _ in range(10)]:
+            k = len(funcs)
+            funcs.append((k, T, "n", 'extern "C" int f_%d(%s x) { return ((x * %d / %d) * %d + (%d)) / %d; }' % (k, T, a, b, c, e, g)))
+        for (a, c, op) in [(12, 5, ">"), (3, -7, "<"), (100, 44, "=="), (255, 1, "!="), (7, 0, ">="), (129, 100, "<=")] + \
+                          [(rnd.randrange(2, 300), rnd.randrange(-100, 200), rnd.choice([">", "<", "==", "<="])) for _ in range(6)]:
+            k = len(funcs)
+            # (narrowing a 16-bit parameter times a to 8 bits has one cell per wrap: keep the target as wide as the parameter)
+            N = ("int8_t" if rnd.random() < 0.5 else "uint8_t") if "8" in T else ("int16_t" if rnd.random() < 0.5 else "uint16_t")
+            funcs.append((k, T, "w", 'extern "C" bool f_%d(%s x) { return static_cast<%s>(x * %d) %s %d; }' % (k, T, N, a, op, c)))
+    src = "#include <cstdint>\n" + "\n".join(f[3] for f in funcs) + "\n"
+    ll, err = ir.build_ir(ctx, src, "st_nested")
+    assert ll, err
+    mod = ir.parse_module(ll, only=lambda n: n.startswith("f_"))
+    nv = nc = 0
+    for k, T, kind, _ in funcs:
+        d = dag.build(mod.funcs["f_%d" % k], mod)
+        lo, hi = model.int_range(T)
+        part = cells.analyse({"v": d.ret}, lo, hi, wrap_roots=("v",) if kind == "w" else None)
+        seen = 0
+        for cell, res in part:
+            nc += 1
+            x = cell.first()
+            while x is not None:
+                seen += 1
+                nv += 1
+                cv = concrete.ev(d.ret, [x])
+                av = res["v"]
+                if kind == "w":
+                    assert cells.as_bool(av) is not None and int(cells.as_bool(av)) == cv, (k, x, cv, av, cell)
+                else:
+                    assert isinstance(av, cells.Form), (k, x, av, cell)
+                    assert dag.as_signed(cv, "i32") == av.at(x), (k, x, cv, av, cell)
+                nx = cells.Cell(x + 1, cell.hi, cell.cls)
+                x = None if nx.empty() else nx.first()
+        assert seen == hi - lo + 1, (k, seen)
+    print("selftest nested truncation / modular narrowing: OK  (%d functions, %d cells, %d concrete values compared)" % (len(funcs), nc, nv))
 
 if __name__ == "__main__":
     main()
